@@ -324,9 +324,16 @@ def stepViolations (st : State) (idx : Nat) (st' : State) : List String :=
   let v5 := match st'.ended with
     | some .quitNil =>
       (if st'.stages.allStoresCompleted then [] else ["C05/final/stores-not-completed"]) ++
-      (match st'.walker with
-       | some w => if (List.range' w.seg.firstIndex (w.seg.lastIndex + 1 - w.seg.firstIndex)).all
-            (fun i => match w.seg.range? i with | some r => st'.files.hasOutput r.start r.stop | none => true) then [] else ["C05/final/output-missing"]
+      -- every requested output file is there: the walker's range; for a block-index output (no walker) the same
+      -- range, `ReadOutSegmenter(initial block of the output module)`, of `.index` files
+      (let outSeg : Option Segmenter := match st'.walker with
+         | some w => some w.seg
+         | none => match st'.cfg.readExecOut, st'.cfg.writeExecOut with
+           | some _, some w => some ⟨st'.cfg.interval, max w.start st'.cfg.outInit, w.stop⟩
+           | _, _ => none
+       match outSeg with
+       | some sg => if (List.range' sg.firstIndex (sg.lastIndex + 1 - sg.firstIndex)).all
+            (fun i => match sg.range? i with | some r => st'.files.hasOutput r.start r.stop | none => true) then [] else ["C05/final/output-missing"]
        | none => []) ++
       (match st'.cfg.buildStores with
        | some b => if st'.stages.stages.all (fun sg => sg.kind != .store ||
